@@ -39,8 +39,12 @@ META = {
 }
 
 WITNESS = r'''#!/venv/bin/python
-import sys, os, json
+import sys, os, json, time
 rec = {"argv": sys.argv[1:], "environ": dict(os.environ), "lines": [], "pid": os.getpid()}
+delay = 0.0
+for a_ in sys.argv[1:]:
+    if a_.startswith("--vp-init-delay="):
+        delay = float(a_.split("=", 1)[1])  # a server that takes a while to come up
 path = os.path.abspath(__file__) + ".out.%d.json" % os.getpid()
 def save():
     with open(path + ".tmp", "w") as fh:
@@ -60,6 +64,7 @@ for line in sys.stdin:
     if isinstance(msg, dict) and "id" in msg and "method" in msg:
         m = msg["method"]
         if m == "initialize":
+            time.sleep(delay)
             res = {"protocolVersion": msg.get("params", {}).get("protocolVersion", "2025-06-18"), "capabilities": {}, "serverInfo": {"name": "witness", "version": "1"}}
         else:
             res = {}
@@ -498,13 +503,37 @@ def job_hyp(col: Collector, seed: int, tier: str, shard: int, n: int) -> None:
     hyp_run(col, seed * 1000 + shard, cases(), check, n)
 
 
-JOBS = {"hyp": job_hyp}
+def job_slow(col: Collector, seed: int, tier: str, shard: int) -> None:
+    """servers that take a while to come up - each well inside its own configured timeout, together longer than it:
+    every entry point still reaches the handshake with every one of them"""
+    sets = [
+        [("a", 1, 0.45), ("b", 1.0, 0.45), ("c", "1", 0.45)],
+        [("a", 2, 0.7), ("b", None, 0.1), ("c", 1.5, 0.7), ("d", 1, 0.3)],
+        [("only", 0.5, 0.3)],
+        [("a", "1.5", 0.6), ("b", 0.5, 0.0), ("c", 1.5, 0.6)],
+    ]
+    servers = []
+    for name, t, d in sets[shard % len(sets)]:
+        sv: Dict[str, Any] = {"name": name, "args": ["--stdio", f"--vp-init-delay={d}"], "extra": {}}
+        if t is not None:
+            sv["timeout"] = t
+        servers.append(sv)
+    case = {"servers": servers, "dirname": "d", "top_extra": {}, "ensure_ascii": True}
+    o = check(case)
+    o.nontrivial = True
+    o.classes = tuple(o.classes) + ("slow-servers-inside-their-own-timeouts",)
+    col.record(case, o)
+    if shard == 0:
+        col.exhaustive_parts.append("4 fixed sets of 1..4 slow-starting servers, each inside its own configured timeout, cumulatively beyond it")
+
+
+JOBS = {"hyp": job_hyp, "slow": job_slow}
 
 
 def jobs(tier: str):
     if tier == "quick":
-        return [("hyp", {"shard": s, "n": 8}) for s in range(16)]
-    return [("hyp", {"shard": s, "n": 150}) for s in range(16)]
+        return [("hyp", {"shard": s, "n": 8}) for s in range(16)] + [("slow", {"shard": s}) for s in range(4)]
+    return [("hyp", {"shard": s, "n": 150}) for s in range(16)] + [("slow", {"shard": s}) for s in range(4)]
 
 
 def shrink(signature: str, seed: int):
